@@ -3,6 +3,8 @@
 #   dune/python/common/densevector.hh   __getitem__/__setitem__ out of range: pybind11::index_error; n>1 int overloads: `a != 0`, value_error;
 #                                       __neg__: `*copy *= ValueType( -1 )`
 #   dune/python/common/fvector.hh   buffer constructor: pybind11::value_error for format / dimension
+#   dune/python/common/numpyvector.hh   NumPyVector( pybind11::buffer ): `arrayInfo = array_.request(true)` -- whether write access
+#                                       to the wrapped array is requested (c20_param_npv_request_writable)
 # Strings are emitted as lists of character codes (Params_gen.v imports only NArith/ZArith); exception classes as codes
 # 0 = IndexError, 1 = TypeError, 2 = ValueError, 3 = RuntimeError.
 def lines(repo, read, find, report):
@@ -32,7 +34,11 @@ def lines(repo, read, find, report):
     se = find("c20_param_scalar_exc", dv, r'"__add__",\s*\[\]\s*\(\s*pybind11::object\s+self,\s*int\s+a\s*\)\s*\{\s*if\(\s*a\s*!=\s*-?\d+\s*\)\s*throw\s+pybind11::(\w+)\s*\(', 2, exc_code)
     sz = find("c20_param_scalar_neutral", dv, r'"__add__",\s*\[\]\s*\(\s*pybind11::object\s+self,\s*int\s+a\s*\)\s*\{\s*if\(\s*a\s*!=\s*(-?\d+)\s*\)', 0)
     ng = find("c20_param_neg_factor", dv, r'"__neg__"[\s\S]{0,120}?\*copy\s*\*=\s*ValueType\(\s*(-?\d+)\s*\)', -1)
-    return ["Definition c20_param_str_open : list nat := %s." % codes(op),
+    nv = read("dune/python/common/numpyvector.hh")
+    rw = find("c20_param_npv_request_writable", nv, r'arrayInfo\s*=\s*array_\.request\(\s*(\w*)\s*\)', "true",
+              lambda s: "true" if s.strip() == "true" else "false")
+    return ["Definition c20_param_npv_request_writable : bool := %s." % rw,
+            "Definition c20_param_str_open : list nat := %s." % codes(op),
             "Definition c20_param_str_sep : list nat := %s." % codes(sep),
             "Definition c20_param_str_close : list nat := %s." % codes(cl),
             "Definition c20_param_repr_prefix : list nat := %s." % codes(rp),
